@@ -75,8 +75,10 @@ class Collective:
         # Compare all pairs
         for i, event_i in events[:-1].iterrows():
             for j, event_j in events[i + 1 :].iterrows():
+                # events are sorted by stop time, so a later event may still
+                # start earlier; the search can therefore not stop here
                 if event_j['start time'] - event_i['stop time'] > max_steps:
-                    break
+                    continue
                 if event_i['start time'] - event_j['stop time'] > max_steps:
                     continue
                 if event_i['atom index'] == event_j['atom index']:
